@@ -15,6 +15,7 @@ CONSTANTS Kinds,        \* subset of {"choice", "plain", "confirm"}
           Multis,       \* set of values of `multi` for choice questions
           Muts,         \* what the caller did to its choice list between building the question and asking it:
                         \*   0 nothing, 1 appended the last choice, 2 replaced the first choice, 3 removed a trailing one
+          DefInts,      \* {FALSE} or {FALSE, TRUE}: a single-select index default may also be given as an int
           RouteIds,     \* which of the routes by which the I/O is prepared (see RouteOf)
           Reconfs,      \* what the caller does before asking the object again: 0 nothing, 2 set_multi_select(not multi),
                         \* 3 io.set_input(<one line>) - a new, shorter script on the SAME I/O, 4 io.clear_input(),
@@ -54,7 +55,7 @@ ConfirmAnswers == << <<>>, <<"y">>, <<"Y">>, <<"y", "e", "s">>, <<"n">>, <<"n", 
 NoPat == Patterns[1]
 
 Q(kind, cs, bs, mu, hasDef, def, defB, att, inter, val, pat) ==
-  [kind |-> kind, choices |-> cs, built |-> bs, multi |-> mu, hasDef |-> hasDef, def |-> def, defB |-> defB, maxAtt |-> att,
+  [kind |-> kind, choices |-> cs, built |-> bs, multi |-> mu, hasDef |-> hasDef, def |-> def, defInt |-> FALSE, defB |-> defB, maxAtt |-> att,
    interactive |-> inter, validator |-> val, pat |-> pat]
 
 First0 == [out |-> NoOut, r |-> 0, n |-> 0, e |-> 0, w |-> 0, rc |-> 0]
@@ -68,10 +69,11 @@ BuiltOf(cs, mt) == CASE mt = 0 -> cs
 InitChoice ==
   /\ "choice" \in Kinds
   /\ \E n \in 1..MaxChoices : \E ci \in [1..n -> 1..NPool] : \E m \in 0..MaxLines : \E si \in [1..m -> 1..NAnswers] :
-     \E att \in Attempts, mu \in Multis, d \in 0..NDefaults, inter \in Inter, mt \in Muts :
+     \E att \in Attempts, mu \in Multis, d \in 0..NDefaults, inter \in Inter, mt \in Muts, di \in DefInts :
        /\ DefOK(d, mu, n) /\ (~inter => (m <= 1 /\ att = 0)) /\ (mt = 1 => n >= 2)
-       /\ Start(Q("choice", [k \in 1..n |-> ChoicePool[ci[k]]], BuiltOf([k \in 1..n |-> ChoicePool[ci[k]]], mt), mu, d > 0, IF d > 0 THEN DefaultPool[d] ELSE <<>>,
-                  FALSE, att, inter, TRUE, NoPat),
+       /\ (di => (~mu /\ d \in {1, 2}))                \* an int default: one index, single-select
+       /\ Start([Q("choice", [k \in 1..n |-> ChoicePool[ci[k]]], BuiltOf([k \in 1..n |-> ChoicePool[ci[k]]], mt), mu, d > 0,
+                    IF d > 0 THEN DefaultPool[d] ELSE <<>>, FALSE, att, inter, TRUE, NoPat) EXCEPT !.defInt = di],
                 [k \in 1..m |-> AnswerPool[si[k]]], 0)
        /\ idx = [c |-> ci, s |-> si, d |-> d, p |-> 0]
        /\ round = 1 /\ first = First0
@@ -172,7 +174,7 @@ RouteJ == [k \in 1..Len(route) |-> [op |-> route[k].op, ls |-> FlatAll(route[k].
 Emit == Last => PrintT(ToJson([kind |-> q.kind, b |-> FlatAll(q.built), rounds |-> Rounds, route |-> RouteJ, s2 |-> FlatAll(script),
                               f |-> [o |-> OutJ(first.out), r |-> first.r, n |-> first.n, e |-> first.e, w |-> first.w, rc |-> first.rc],
                               c |-> idx.c, s |-> idx.s, d |-> idx.d, p |-> idx.p, m |-> q.multi,
-                              a |-> q.maxAtt, i |-> q.interactive, v |-> q.validator, db |-> q.defB,
+                              a |-> q.maxAtt, i |-> q.interactive, v |-> q.validator, db |-> q.defB, di |-> q.defInt,
                               ok |-> out.kind, x |-> out.cls, t |-> out.val.t, vs |-> Flat(out.val.s),
                               vl |-> FlatAll(out.val.l), vb |-> out.val.b,
                               r |-> obs.reads, n |-> pos - start, e |-> obs.errs, w |-> obs.prompts]))
